@@ -198,6 +198,17 @@ func encodeOps(stmts []ast.Stmt, recv string, env map[string]string, c *Ctx) []w
 					tag = ops[0].label
 					ops = ops[1:]
 				}
+				// a named constant tag: use its value
+				for _, st0 := range cc.Body {
+					if es, ok := st0.(*ast.ExprStmt); ok {
+						if call, ok := es.X.(*ast.CallExpr); ok && len(call.Args) == 1 {
+							if k, isK := constOfAny(c, call.Args[0]); isK {
+								tag = fmt.Sprint(k)
+							}
+						}
+					}
+					break
+				}
 				// relabel arm payload as the switch subject
 				for i := range ops {
 					ops[i].label = "arm"
@@ -327,6 +338,9 @@ func decodeOps(stmts []ast.Stmt, recv string, fieldOf map[string]string, inlineH
 				tag := "default"
 				if len(cc.List) == 1 {
 					tag = types.ExprString(cc.List[0])
+					if k, isK := constOfAny(c, cc.List[0]); isK {
+						tag = fmt.Sprint(k)
+					}
 				}
 				ops := decodeOps(cc.Body, recv, fieldOf, inlineHelper, c)
 				for i := range ops {
@@ -823,9 +837,10 @@ func ruleZ3(c *Ctx) {
 			tag := "?"
 			for _, st := range cc.Body {
 				if es, ok := st.(*ast.ExprStmt); ok {
-					if call, ok := es.X.(*ast.CallExpr); ok && len(call.Args) == 1 {
-						if lit, ok := call.Args[0].(*ast.BasicLit); ok && tag == "?" {
-							tag = lit.Value
+					if call, ok := es.X.(*ast.CallExpr); ok && len(call.Args) == 1 && tag == "?" {
+						// the tag may be a literal or a named constant
+						if k, isK := constOf(info, call.Args[0]); isK {
+							tag = fmt.Sprint(k)
 						}
 					}
 				}
@@ -852,7 +867,20 @@ func ruleZ3(c *Ctx) {
 				continue
 			}
 			tag := types.ExprString(cc.List[0])
+			if k, isK := constOf(info, cc.List[0]); isK {
+				tag = fmt.Sprint(k)
+			}
 			for _, st := range cc.Body {
+				if rs, ok := st.(*ast.ReturnStmt); ok && len(rs.Results) >= 1 {
+					// helper form: `case k: return d.string()`
+					t := info.TypeOf(rs.Results[0])
+					if tup, ok := t.(*types.Tuple); ok {
+						t = tup.At(0).Type()
+					}
+					if t != nil {
+						decTags[tag] = types.TypeString(t, func(p *types.Package) string { return p.Name() })
+					}
+				}
 				if as, ok := st.(*ast.AssignStmt); ok && len(as.Rhs) == 1 {
 					t := info.TypeOf(as.Rhs[0])
 					if tup, ok := t.(*types.Tuple); ok {
@@ -1007,6 +1035,21 @@ func collectDynTypes(p *Prog, v ssa.Value, out map[string]bool, seen map[ssa.Val
 			return // nil interface: no value
 		}
 		out[q(x.Type())] = true
+	case *ssa.Call:
+		// result of a module function returning `any` (e.g. a literalValue helper): union over its returns
+		if cal := x.Call.StaticCallee(); cal != nil && cal.Blocks != nil && strings.HasPrefix(fnPkgPath(cal), modPath) {
+			n := 0
+			eachInstr(cal, func(in ssa.Instruction) {
+				if r, ok := in.(*ssa.Return); ok && len(r.Results) >= 1 {
+					n++
+					collectDynTypes(p, r.Results[0], out, seen)
+				}
+			})
+			if n > 0 {
+				return
+			}
+		}
+		out[fmt.Sprintf("<result of %s>", calleeName(x))] = true
 	case *ssa.Extract:
 		// comma-ok / multi-value: e.g. result of a scanner helper
 		out["<"+q(x.Type())+" from "+x.Tuple.Name()+">"] = true
@@ -1075,10 +1118,36 @@ func ruleZ4(c *Ctx) {
 		c.anchorFail("DecodeProgram: only %d decoder calls found", len(decCalls))
 		return
 	}
-	// magic dominates first decoder call
+	// magic dominates first decoder call (the comparison may live in a helper such as checkMagic,
+	// whose error result must then be tested before decoding)
 	key := "DecodeProgram: magic check"
-	if magicIf != nil && instrDominates(magicIf, decCalls[0]) {
-		c.ok(key, c.P.Pos(magicIf.Pos()), "dominates all decoding")
+	isMagicCmp := func(in ssa.Instruction) bool {
+		ifi, ok := in.(*ssa.If)
+		if !ok {
+			return false
+		}
+		b, ok := ifi.Cond.(*ssa.BinOp)
+		if !ok {
+			return false
+		}
+		for _, v := range []ssa.Value{b.X, b.Y} {
+			if k, ok := v.(*ssa.Const); ok && k.Value != nil && strings.Contains(k.Value.String(), "sky") {
+				return true
+			}
+		}
+		return false
+	}
+	var magicAt ssa.Instruction
+	if magicIf != nil {
+		magicAt = magicIf
+	} else if at := findInCallees(fn, 1, isMagicCmp); at != nil {
+		// helper call: its error must be nil on the way to decoding
+		if call, ok := at.(*ssa.Call); ok && dominatedByNilErr(decCalls[0].Block(), call) {
+			magicAt = at
+		}
+	}
+	if magicAt != nil && instrDominates(magicAt, decCalls[0]) {
+		c.ok(key, c.P.Pos(magicAt.Pos()), "dominates all decoding")
 	} else {
 		c.viol(key, pos, "no magic-number comparison dominating the decoding")
 	}
@@ -1178,4 +1247,13 @@ func ruleZ5(c *Ctx) {
 	} else {
 		c.ok(key, c.P.Pos(fn.Pos()), fmt.Sprintf("%d functions in Encode's module-local call tree: no map range, clock or random source", len(seen)))
 	}
+}
+
+// constOfAny evaluates a constant expression of package compile.
+func constOfAny(c *Ctx, e ast.Expr) (int64, bool) {
+	pk := c.P.Pkg(compilePkg)
+	if pk == nil {
+		return 0, false
+	}
+	return constOf(pk.TypesInfo, e)
 }
